@@ -245,7 +245,9 @@ def _degenerate_flows(ctx, res, rng):
             from scipy.linalg import expm
             damp = 1.0 if sc["regime"] == 4 else 0.3
             want = A0 @ expm(damp * L.T * sc["span"])
-            dev = float(np.abs(m1.orientations[-1] - want).max())
+            # grains under the sliding threshold chi/n are frozen by design (C09); volumes do not change under a rigid rotation
+            free = f0 >= sc["chi"] / sc["n"]
+            dev = float(np.abs(m1.orientations[-1][free] - want[free]).max()) if free.any() else 0.0
             res.count("integrated_pairs:pure_spin:closed_form_compared")
             if dev > tol:
                 res.violation("integrated:pure_spin:not_corotating", f"rigid rotation: the texture differs from A0 exp({damp} L^T t) by {dev:.3e} > {tol:.3e}", rep)
